@@ -16,26 +16,26 @@ import json, os, subprocess, sys, shutil, tempfile, multiprocessing, time
 V = os.path.dirname(os.path.dirname(os.path.abspath(__file__)))
 ENV = dict(os.environ, GOFLAGS="-mod=mod", GOPROXY="off", GOSUMDB="off", GOTOOLCHAIN="local")
 
-CHECKS = {
-    "plenccore/varints.go": "C18 C02 C05 C04 C03 C01",
-    "plenccore/wire.go": "C18 C03 C04 C02 C01 C13",
-    "plenccodec/struct.go": "C02 C01 C03 C05 C08 C09 C10 C14 C04 C06",
-    "plenccodec/wrapper.go": "C02 C01 C05 C06 C09 C10 C11 C12 C14 C04 C08",
-    "plenccodec/map.go": "C02 C01 C05 C10 C12 C14 C04 C07 C13",
-    "plenccodec/string.go": "C01 C19 C11 C02 C04 C07",
-    "plenccodec/time.go": "C02 C01 C03 C12 C14 C04 C13 C05",
-    "plenccodec/int.go": "C02 C01 C05 C14 C04 C13",
-    "plenccodec/float.go": "C02 C01 C05 C11 C14 C04 C13",
-    "plenccodec/bool.go": "C02 C01 C05 C14 C04",
-    "plenccodec/descriptor.go": "C13 C14 C15 C04 C16",
+CHECKS = {  # fastest first: the sweep stops at the first check that reports a violation
+    "plenccore/varints.go": "C18 C09 C04 C13 C05 C02 C03 C01",
+    "plenccore/wire.go": "C18 C09 C04 C13 C03 C02 C01",
+    "plenccodec/struct.go": "C09 C08 C14 C04 C13 C05 C02 C01 C03 C10 C06",
+    "plenccodec/wrapper.go": "C09 C08 C14 C04 C13 C05 C02 C01 C06 C10 C11 C12",
+    "plenccodec/map.go": "C09 C14 C04 C13 C05 C02 C01 C12 C10 C07",
+    "plenccodec/string.go": "C09 C04 C19 C05 C02 C01 C11 C07",
+    "plenccodec/time.go": "C09 C14 C04 C13 C05 C02 C01 C12 C03",
+    "plenccodec/int.go": "C09 C14 C04 C13 C05 C02 C01",
+    "plenccodec/float.go": "C09 C14 C04 C13 C05 C02 C01 C11",
+    "plenccodec/bool.go": "C09 C14 C04 C13 C05 C02 C01",
+    "plenccodec/descriptor.go": "C14 C15 C13 C16 C04",
     "plenccodec/output.go": "C15 C13 C16",
     "plenccodec/json.go": "C16 C04 C13 C11",
-    "plenccodec/unsafetricks.go": "C01 C10 C11",
-    "codec.go": "C01 C02 C08 C17 C07 C12 C14",
-    "plenc.go": "C17 C12 C01 C02 C07",
-    "marshal.go": "C06 C01 C02 C17 C05",
-    "unsafetricks.go": "C01 C06",
-    "null/null.go": "C01 C02 C09 C13 C14 C19 C05 C04",
+    "plenccodec/unsafetricks.go": "C09 C01 C10 C11",
+    "codec.go": "C08 C09 C17 C14 C02 C01 C12 C07",
+    "plenc.go": "C17 C09 C08 C12 C02 C01 C07",
+    "marshal.go": "C09 C17 C06 C05 C02 C01",
+    "unsafetricks.go": "C09 C01 C06",
+    "null/null.go": "C09 C14 C13 C04 C19 C05 C02 C01",
     "cmd/plenctag/main.go": "C20",
 }
 
@@ -125,6 +125,14 @@ def main():
         ms = [json.loads(l) for l in open(os.path.join(out, "phase1.jsonl"))]
         ms = [m for m in ms if m["result"] == "survived-suite"]
         fn, dst = phase2_one, os.path.join(out, "phase2.jsonl")
+    if phase == "phase2":
+        # int(0) -> int(1) inside reflect.TypeOf(...) changes a value nobody looks at: equivalent by construction
+        def type_only(m):
+            if m["op"] not in ("int+1", "int-1"):
+                return False
+            line = open(os.path.join("/repo", m["file"])).read().splitlines()[m["line"] - 1]
+            return "reflect.TypeOf(" in line and m["old"] == "0"
+        ms = [m for m in ms if not type_only(m)]
     if only:
         ms = [m for m in ms if only in m["file"]]
     if ids is not None:
